@@ -236,6 +236,22 @@ def run_jobs(jobs, name, threads=None, timeout_ms=60000):
         # otherwise retry the rest single-threaded-ish so that one crash loses less
         pending = missing
         threads = max(1, threads // 4)
+    # A watchdog expiry under a loaded machine is not evidence of a hang: every timed-out job is run
+    # again, few at a time, with four times the budget; only a second expiry stands.
+    slow = [j for j in jobs if "timeout" in results.get(j["id"], {})]
+    if slow and name != "confirm":
+        again = []
+        for j in slow[:48]:
+            j2 = dict(j)
+            j2["timeout_ms"] = 4 * int(j.get("timeout_ms") or timeout_ms)
+            again.append(j2)
+        res2 = run_jobs(again, "confirm", threads=3, timeout_ms=4 * timeout_ms)
+        for j in again:
+            r2 = res2.get(j["id"])
+            if r2 is not None:
+                if "timeout" not in r2:
+                    r2["slow_first_try"] = True
+                results[j["id"]] = r2
     return results
 
 
